@@ -360,20 +360,23 @@ class Frame:
         self.before = self.observe()
         self.changed = set()
 
-    def observe(self):
+    def observe(self, only=None):
         cg, agentsdef, agent_names, hints, must_host, memory, comm, tables = self.args
-        return dict(graph=_obs_graph(cg), agents=_obs_agents(agentsdef, agent_names, self.comps),
-                    hints=_obs_hints(hints, must_host, agent_names, self.comps),
-                    callables=_obs_callables(cg, memory, comm),
-                    tables={k: dict(v) if isinstance(v, dict) else v for k, v in tables.items()})
+        obs = dict(graph=lambda: _obs_graph(cg), agents=lambda: _obs_agents(agentsdef, agent_names, self.comps),
+                   hints=lambda: _obs_hints(hints, must_host, agent_names, self.comps),
+                   callables=lambda: _obs_callables(cg, memory, comm),
+                   tables=lambda: {k: dict(v) if isinstance(v, dict) else v for k, v in tables.items()})
+        return {k: f() for k, f in obs.items() if only is None or k in only}
 
-    def check(self, when, info):
-        """inputs read again: every observation is what it was before the first call"""
-        now = self.observe()
+    def check(self, when, info, only=None):
+        """inputs read again: every observation (``only``: the named ones) is what it was before the first call"""
+        now = self.observe(only)
         what = dict(graph="computation-graph", agents="agent-definitions", hints="distribution-hints",
                     callables="computation_memory-and-communication_load-answers", tables="footprint-capacity-cost-tables")
         ok = True
         for k, name in what.items():
+            if k not in now:
+                continue
             if k in self.changed:
                 continue    # reported once on this path
             b, n = self.before[k], now[k]
@@ -393,7 +396,9 @@ def _mapping_of(r):
 
 
 def scribble_on(results):
-    """use the returned Distribution objects the way a caller may (host more computations, edit the lists of mapping())"""
+    """use the returned Distribution objects the way a caller may (host more computations, edit the lists of mapping()).
+    A Distribution holds lists of computation names under agent names: of the inputs, only the graph (name lists of the nodes)
+    and the hints (must_host / host_with lists) can be reached that way, and only they are observed again afterwards"""
     from pydcop.distribution.objects import Distribution
     for i, r in enumerate(results):
         if not isinstance(r, Distribution):
@@ -511,7 +516,7 @@ def h_heuristics(env):
         results.append(r2)
     # the result is the caller's: editing it does not reach the inputs
     scribble_on(results)
-    frame.check("after-editing-the-result", info)
+    frame.check("after-editing-the-result", info, only=("graph", "hints"))
 
 
 def _case(method, dcop, graph, agents, **kw):
@@ -817,7 +822,7 @@ def h_ilp(env):
         frame.check("after-" + SECOND, info)
         results.append(r2)
     scribble_on(results)
-    frame.check("after-editing-the-result", info)
+    frame.check("after-editing-the-result", info, only=("graph", "hints"))
 
 
 def _check_optimal(env, mod, meth, sit24, r, cg, comps, names, agents, fp, cap, memory, comm, info):
@@ -1268,7 +1273,7 @@ def h_secp(env):
         frame.check("after-" + SECOND, info)
         results.append(r2)
     scribble_on(results)
-    frame.check("after-editing-the-result", info)
+    frame.check("after-editing-the-result", info, only=("graph", "hints"))
 
 
 def _shapes_secp(tier, prop=None):
